@@ -1,4 +1,5 @@
 import ZCV.Model.Val
+import ZCV.Inet
 /-!
 Documented contracts of the standard datatypes (docs/standard-datatypes.rst and property C09),
 written without regular expressions or tables taken from the code.
@@ -119,5 +120,12 @@ def isHostname (s : Str) : Bool :=
   | [] => false
 
 def isV6Char (c : Char) : Bool := isAsciiDigit c || inRange 'a' 'f' c || inRange 'A' 'F' c || c == ':' || c == '.'
+
+/-- exactly dotted-quad IPv4, valid IPv6 addresses and host names; lower-cased -/
+def ipaddrOrHostname (s : Str) : R Str :=
+  if isDottedQuad s then .ok (lower s)
+  else if isHostname s then .ok (lower s)
+  else if s.all isV6Char && s.contains ':' && DT.pton6 (lower s) then .ok (lower s)
+  else .error .valueError
 
 end ZCV.DTSpec
